@@ -67,6 +67,64 @@ Theorem dms_sign_of_value_refuted : ~ (from_dms true (to_dms (-1 # 3)) == (-1 # 
 Proof. exact sign_of_value_refuted_l. Qed.
 Print Assumptions dms_sign_of_value_refuted.
 
+(* ============================================================ Lagrange interpolation
+   lagrange1 o w pts t / lagrange o ncols w pts t: the value at x_new = t of the interpolator built from the
+   samples pts with window w, or None where the code raises ValueError (window < 3, window > n, abscissae
+   not strictly increasing after the argsort, t out of bounds with bounds_error).  The hypothesis on
+   `scaling o` says that the std used for rescaling is not zero. *)
+(* the data are reproduced at the nodes - whatever the window, at the ends of the range too *)
+Theorem lagrange_nodes : forall o w pts xk yk r,
+  (forall m s, scaling o = Some (m, s) -> ~ (s == 0)%Q) ->
+  In (xk, yk) pts -> lagrange1 o w pts xk = Some r -> (r == yk)%Q.
+Proof. exact lagrange_nodes_l. Qed.
+Print Assumptions lagrange_nodes.
+
+(* linear in the data (same abscissae; defined / undefined together) *)
+Theorem lagrange_linear_in_y : forall o w (l : list (Q * (Q * Q))) a b t,
+  match lagrange1 o w (column fst l) t, lagrange1 o w (column snd l) t,
+        lagrange1 o w (column (fun v => a * fst v + b * snd v)%Q l) t with
+  | Some r1, Some r2, Some r3 => (r3 == a * r1 + b * r2)%Q
+  | None, None, None => True
+  | _, _, _ => False
+  end.
+Proof. exact lagrange_linear_l. Qed.
+Print Assumptions lagrange_linear_in_y.
+
+(* any reordering of the samples gives the same answer (unless the caller promises sorted input) *)
+Theorem lagrange_perm_invariant : forall o n w pts pts' t,
+  assume_sorted o = false -> Permutation pts pts' -> lagrange o n w pts t = lagrange o n w pts' t.
+Proof. exact lagrange_nd_perm_l. Qed.
+Print Assumptions lagrange_perm_invariant.
+
+(* samples of a polynomial with at most `window` coefficients (degree < window) are interpolated exactly *)
+Theorem lagrange_reproduces_poly : forall o w pts p t r,
+  (forall m s, scaling o = Some (m, s) -> ~ (s == 0)%Q) ->
+  (List.length p <= w)%nat -> (forall x y, In (x, y) pts -> (y == peval p x)%Q) ->
+  lagrange1 o w pts t = Some r -> (r == peval p t)%Q.
+Proof. exact lagrange_reproduces_poly_l. Qed.
+Print Assumptions lagrange_reproduces_poly.
+
+(* n-d data: column c of the result is the 1-d result for column c of the data *)
+Theorem lagrange_ndim : forall o ncols w pts t c,
+  (forall p, In p pts -> List.length (snd p) = ncols) -> (c < ncols)%nat ->
+  match lagrange o ncols w pts t, lagrange1 o w (column (fun r => nth c r 0%Q) pts) t with
+  | Some v, Some r => List.length v = ncols /\ (nth c v 0 == r)%Q
+  | None, None => True
+  | _, _ => False
+  end.
+Proof. exact lagrange_ndim_l. Qed.
+Print Assumptions lagrange_ndim.
+
+(* the (x - mean) / std rescaling of the code does not change the exact result *)
+Theorem scaling_irrelevant : forall srt bnd m s w pts t, ~ (s == 0)%Q ->
+  match lagrange1 (mkOpt srt bnd (Some (m, s))) w pts t, lagrange1 (mkOpt srt bnd None) w pts t with
+  | Some r, Some r' => (r == r')%Q
+  | None, None => True
+  | _, _ => False
+  end.
+Proof. exact scaling_irrelevant_l. Qed.
+Print Assumptions scaling_irrelevant.
+
 (* ============================================================ dilution of precision *)
 Theorem dop_pythagoras : forall M : mat,
   (0 <= M i0 i0 -> 0 <= M i1 i1 -> 0 <= M i2 i2 -> 0 <= M i3 i3 ->
@@ -111,3 +169,9 @@ Example units_nonempty : In (mkU "degree" Angle (1 # 180) 1) units /\ In (mkU "m
 Proof. split; vm_compute; tauto. Qed.
 Example dms_example : let t := to_dms (-1 # 3) in dneg t = true /\ ddeg t = 0%Z /\ dmin t = 20%Z /\ (dsec t == 0)%Q.
 Proof. vm_compute. repeat split. Qed.
+Example lagrange_example :
+  lagrange1 default_opts 3 [(3, 9); (0, 0); (1, 1); (2, 4); (5, 25)]%Q (5 # 2) = Some (25 # 4)%Q
+  \/ exists r, lagrange1 default_opts 3 [(3, 9); (0, 0); (1, 1); (2, 4); (5, 25)]%Q (5 # 2) = Some r /\ (r == 25 # 4)%Q.
+Proof. right. eexists. split; [vm_compute; reflexivity|vm_compute; reflexivity]. Qed.
+Example dop_example : inverse_of mI mI.
+Proof. split; apply mmul_I_l. Qed.
